@@ -49,6 +49,9 @@ def new_points(rng, ax):
             pts.append(a + (b - a) * rng.choice([Fraction(1, 2), Fraction(1, 4), Fraction(3, 4)]))
     if rng.random() < 0.6:
         pts = sorted(pts)
+    if rng.random() < 0.12:
+        # the stored labels shifted by a hair (same length, np.allclose to the axis, but different coordinates)
+        pts = [Fraction(l[1], l[2]) + Fraction(1, 2 ** 30) for l in ax["labels"]]
     return [gen.enc(p) for p in pts]
 
 
@@ -82,6 +85,11 @@ class C18(Prop):
             arr["vkind"] = rng.choice(["f", "f", "i"])
             if rng.random() < 0.4:
                 arr["attrs_py"] = {"units": "K"}
+            if arr["vkind"] == "f" and rng.random() < 0.25:
+                size = 1
+                for a_ in arr["axes"]:
+                    size *= len(a_["labels"])
+                arr["nan_cells"] = sorted(rng.sample(range(size), min(size, rng.randint(1, 2))))
             names = [a["name"] for a in arr["axes"]]
             fills = rng.choice([None, None, [5.0, 7.0], [0.0, 0.0]])
             r = rng.random()
@@ -101,6 +109,8 @@ class C18(Prop):
         v = (np.arange(a.size) * 0.75 + 1.5).reshape(a.shape)
         if c["array"]["vkind"] == "i":
             v = (np.arange(a.size) * 3 + 1).reshape(a.shape).astype(np.int64)
+        for i in c["array"].get("nan_cells", []):
+            v.reshape(-1)[i % v.size] = np.nan       # missing data: the node values next to it must still be reproduced
         b = DimArray(v, axes=[ax.copy() for ax in a.axes])
         b.attrs.update(a.attrs)
         return b
